@@ -1,6 +1,8 @@
 """C07 - top-level blocks are parsed independently: documents compose by concatenation."""
 from __future__ import annotations
 
+import re
+
 from hypothesis import strategies as st
 
 from .. import cfg as C
@@ -114,6 +116,11 @@ def check(case) -> Res:
         res.cls.append("skip:A-not-closed")
         return res
     tB = norm(md.parse(B), n)
+    b_first = B.split("\n", 1)[0]
+    if tA and tA[-1]["type"].endswith("list_close") and re.match(r" {0,3}(?:[-+*]|\d{1,9}[.)])(?:[ \t]|$)", b_first):
+        # B's first line is (also) a list item start: inside A's list it continues that list, whatever B is alone
+        res.cls.append("skip:list+list")
+        return res
     if tA and tB and tA[-1]["type"].endswith("list_close") and tB[0]["type"].endswith("list_open"):
         res.cls.append("skip:list+list")
         return res
